@@ -1,0 +1,21 @@
+//go:build verif
+
+package consensus
+
+import (
+	"time"
+
+	"github.com/zenon-network/go-zenon/common/types"
+)
+
+// Verification-only exports (build tag verif). Read-only wrappers around unexported
+// functions so an external harness can compare them with a formal model.
+
+func GenerateProducersVerif(info *Context, tick uint64, producerAddresses []types.Address) []*ProducerEvent {
+	return generateProducers(info, tick, producerAddresses)
+}
+
+func GenProofTimeVerif(info *Context, tick uint64) time.Time {
+	em := &electionManager{Context: *info}
+	return em.genProofTime(tick)
+}
